@@ -30,11 +30,9 @@ static void* worker_thread_proc(void* param) {
     async_worker_t* worker = (async_worker_t*)param;
     tls_current_worker = worker;
     
-    worker->state = ASYNC_WORKER_RUNNING;
-    
     void* result = worker->proc(worker->context);
     
-    worker->state = ASYNC_WORKER_STOPPED;
+    __atomic_store_n(&worker->state, ASYNC_WORKER_STOPPED, __ATOMIC_RELEASE);
     tls_current_worker = NULL;
     
     return result;
@@ -48,7 +46,9 @@ async_worker_t* async_worker_create(async_worker_proc_t proc, void* context, siz
     
     worker->proc = proc;
     worker->context = context;
-    worker->state = ASYNC_WORKER_STOPPED;
+    /* The worker counts as running from the moment it is created: a join() issued before the new
+     * thread has been scheduled must not mistake it for a thread that has already finished. */
+    worker->state = ASYNC_WORKER_RUNNING;
     worker->thread_created = false;
     
     if (!platform_event_init(&worker->stop_event, true, false)) {
@@ -110,12 +110,12 @@ bool async_worker_join(async_worker_t* worker, int timeout_ms) {
         struct timespec sleep_time = { 0, 10000000 };  /* 10ms */
         int elapsed_ms = 0;
         
-        while (worker->state != ASYNC_WORKER_STOPPED && elapsed_ms < timeout_ms) {
+        while (__atomic_load_n(&worker->state, __ATOMIC_ACQUIRE) != ASYNC_WORKER_STOPPED && elapsed_ms < timeout_ms) {
             nanosleep(&sleep_time, NULL);
             elapsed_ms += 10;
         }
         
-        if (worker->state == ASYNC_WORKER_STOPPED) {
+        if (__atomic_load_n(&worker->state, __ATOMIC_ACQUIRE) == ASYNC_WORKER_STOPPED) {
             pthread_join(worker->thread, NULL);
             return true;
         }
@@ -134,7 +134,7 @@ bool async_worker_should_stop(async_worker_t* worker) {
 }
 
 async_worker_state_t async_worker_get_state(const async_worker_t* worker) {
-    return worker ? worker->state : ASYNC_WORKER_STOPPED;
+    return worker ? __atomic_load_n(&worker->state, __ATOMIC_ACQUIRE) : ASYNC_WORKER_STOPPED;
 }
 
 platform_event_t* async_worker_get_stop_event(async_worker_t* worker) {
